@@ -482,6 +482,11 @@ func runCase(rt *rapid.T) {
 		if seen[tr.duty] > 1 {
 			rt.Fatalf("TWICE: duty %v triggered %d times (script %v)", tr.duty, seen[tr.duty], script)
 		}
+		if len(tr.defs) == 0 {
+			// the scheduler only files a duty when it has a definition for it: a trigger without any is a duty
+			// "for an unassigned slot" / with an altered definition set, whatever feature is on
+			rt.Fatalf("EMPTY: duty %v triggered with an empty definition set (script %v)", tr.duty, script)
+		}
 		slotStart := genesis.Add(time.Duration(tr.duty.Slot) * slotDur)
 		if tr.at.Before(slotStart.Add(offset(tr.duty.Type))) {
 			rt.Fatalf("EARLY: duty %v triggered at slot start %+v, its offset is %v", tr.duty, tr.at.Sub(slotStart), offset(tr.duty.Type))
